@@ -206,7 +206,8 @@ def run(eng, rep) -> None:
             rep.violation("R13.4", TPL, h, "bitsize = %s" % e, "enum width is a float log formula: ceil(log2(max+1)) is 0 for an enum whose largest value is 0, the static codec (get_packed_size) uses 1 bit")
         else:
             rep.undecided("R13.4", TPL, h, "bitsize = %s" % e, "width formula not recognised")
-    loader_rules(eng, rep, src)
+    if not loader_rules_typed(eng, rep):
+        loader_rules(eng, rep, src)
     pool_rules(eng, rep)
     # ---- R13.5 ---------------------------------------------------------------------
     for h in (() if typed else ("DecodeStruct", "EncodeStruct")):
@@ -359,6 +360,63 @@ def pool_rules(eng, rep) -> None:
             else:
                 rep.ok("R13.7", TPL, mname, site, "key covers every parameter the object is built from (%s)" % sorted(val_p))
     rep.ok("R13.7", TPL, "-", "find-or-insert pools in the run-time codec", "%d found" % n_pools)
+
+
+def loader_rules_typed(eng, rep) -> bool:
+    """R13.4 (loader part) on the typed AST of the abstract instance: a local declared before one of the loader's top-level
+    loops over declarations and assigned inside it (without being re-initialised first in the iteration) carries state from the
+    declarations seen earlier.  -> True when decided on the typed AST."""
+    try:
+        dc = DynCodec(eng)
+    except (DynUndecided, AnalysisError):
+        return False
+    if dc.errors or "LoadBinarySchema" not in dc.methods:
+        return False
+    from ..front_clang import walk as cwalk
+    b = dc.body("LoadBinarySchema")
+    top = [s_ for s_ in b.inner if s_.kind]
+    declared = {}
+    n_loops = 0
+    for st in top:
+        if st.kind == "DeclStmt":
+            for v in st.inner:
+                if v.kind == "VarDecl":
+                    declared[v.get("id")] = v
+        if st.kind not in ("CXXForRangeStmt", "ForStmt", "WhileStmt"):
+            continue
+        n_loops += 1
+        body = st.inner[-1]
+        stmts = [x for x in body.inner if x.kind] if body.kind == "CompoundStmt" else [body]
+        for vid, v in declared.items():
+            if "map<" in v.qtype or "vector<" in v.qtype or "Buffer" in v.qtype:
+                continue  # containers the loader fills are its output, not per-declaration scratch state
+            writes = []
+            for i, s2 in enumerate(stmts):
+                for y in cwalk(s2):
+                    lhs = None
+                    if y.kind in ("BinaryOperator", "CompoundAssignOperator") and str(y.get("opcode", "")).endswith("=") and y.get("opcode") not in ("==", "!=", "<=", ">=") and y.inner:
+                        lhs = y.inner[0]
+                    elif y.kind == "UnaryOperator" and y.get("opcode") in ("++", "--") and y.inner:
+                        lhs = y.inner[0]
+                    elif y.kind == "CXXOperatorCallExpr" and len(y.inner) == 3 and any(z.kind == "DeclRefExpr" and z.get("referencedDecl", {}).get("name") in ("operator=", "operator+=") for z in cwalk(y.inner[0])):
+                        lhs = y.inner[1]
+                    while lhs is not None and lhs.kind in ("ImplicitCastExpr", "ParenExpr") and lhs.inner:
+                        lhs = lhs.inner[0]
+                    if lhs is not None and lhs.kind == "DeclRefExpr" and lhs.get("referencedDecl", {}).get("id") == vid:
+                        writes.append((i, s2, y))
+            if not writes:
+                continue
+            first_i, first_st, first_w = writes[0]
+            plain_reset = first_w.kind == "BinaryOperator" and first_w.get("opcode") == "=" and first_st is first_w \
+                and not any(z.kind == "DeclRefExpr" and z.get("referencedDecl", {}).get("id") == vid for z in cwalk(first_w.inner[1]))
+            if plain_reset and not any(z.kind == "DeclRefExpr" and z.get("referencedDecl", {}).get("id") == vid for s0 in stmts[:first_i] for z in cwalk(s0)):
+                continue  # re-initialised at the start of every iteration
+            rep.violation("R13.4", TPL, "LoadBinarySchema", "`%s` declared before a loop over declarations and assigned inside it" % v.get("name"),
+                          "a value computed while loading one declaration is carried over to the following ones (never reset): e.g. a running maximum makes every later enum as wide as the widest enum seen so far, unlike the static codec")
+    if n_loops:
+        rep.ok("R13.4", TPL, "LoadBinarySchema", "%d top-level loops over declarations (typed AST)" % n_loops, "no scalar carried from one declaration to the next")
+        return True
+    return False
 
 
 def loader_rules(eng, rep, src: str) -> None:
